@@ -69,7 +69,7 @@ func ExpectedRel(e disk.VerifIndexEntry) string {
 // StepInvariants are evaluated at every scheduling point (nobody holds the
 // cache mutex there).
 func StepInvariants(s *sim.Sim, n *Node, clausePrefix string) {
-	if n == nil || n.Cache == nil {
+	if n == nil || n.Cache == nil || s.Panicked {
 		return
 	}
 	o := Observe(n)
@@ -114,7 +114,7 @@ type QuiescenceOpts struct {
 // Quiescence is the oracle of C04 (+ C03 at rest, C20 for written files):
 // no request in flight, pending deletions drained.
 func Quiescence(s *sim.Sim, n *Node, opt QuiescenceOpts) {
-	if n == nil || n.Cache == nil {
+	if n == nil || n.Cache == nil || s.Panicked {
 		return
 	}
 	StepInvariants(s, n, "")
